@@ -396,3 +396,7 @@ impl<'a> PackHeaderRef<'a> {
         Ok(writer.into_inner())
     }
 }
+
+#[cfg(kani)]
+#[path = "/verif/harness/repofile_packfile.rs"]
+pub(crate) mod verif_harness;
